@@ -205,9 +205,21 @@ type tagCtx struct {
 	cancelled bool
 }
 
-type pmErr struct{ s string }
+type pmErr struct {
+	s        string
+	wrapsEnd bool
+}
 
 func (e *pmErr) Error() string { return e.s }
+
+// Unwrap: the source's and f's errors wrap the library's end sentinel (errors.Is(err, stream.End) holds for them): they
+// must be reported like any other error, never mistaken for the end.
+func (e *pmErr) Unwrap() error {
+	if e.wrapsEnd {
+		return stream.End
+	}
+	return nil
+}
 
 func newTagCtx(err error) *tagCtx { return &tagCtx{done: make(chan struct{}), err: err} }
 
@@ -298,11 +310,11 @@ func runMapStream(c *Case) *Obs {
 	ferr := cfgSet(c, "ferr")
 	errF := map[int]error{}
 	for k := range ferr {
-		errF[k] = &pmErr{"f failed"}
+		errF[k] = &pmErr{s: "f failed", wrapsEnd: k%2 == 1}
 	}
-	errSrc := &pmErr{"source failed"}
-	errParent := &pmErr{"caller context cancelled"}
-	errNext := &pmErr{"next context cancelled"}
+	errSrc := &pmErr{s: "source failed", wrapsEnd: n%2 == 0}
+	errParent := &pmErr{s: "caller context cancelled"}
+	errNext := &pmErr{s: "next context cancelled"}
 	parent := newTagCtx(errParent)
 	nctxs := make([]*tagCtx, nctx)
 	for j := range nctxs {
